@@ -15,7 +15,7 @@ RULE = ("cases of C03 (dyadic stream, every fourth case arbitrary doubles compar
         "cells exactly; one-, two- and three-axis dims); for every dimension d and every value v in "
         "0..extent plus one value outside the data: d is replaced by a copy shifted to common v (and, separately, "
         "re-normalised with shift_common() afterwards); every aggregate of C03 is compared with the unshifted cube over "
-        "the same explicit shape (also for a cube object built BEFORE its dimension is re-encoded in place): missing cells exactly, values exactly. Non-trivial = the shifted dimension has rows; "
+        "the same explicit shape (also for a cube object built BEFORE its dimension is re-encoded in place; and for one-axis indexes with a HISTORY: shift_common(v), a category emptied by an entry-wise edit, re-encoded to every value / through column_stack / read with force=True): missing cells exactly, values exactly. Non-trivial = the shifted dimension has rows; "
         "distinct by (case, dimension, v, aggregate)")
 ASSUMPTIONS = ["explicit interacting shape covering both commons (the property's 'value outside the data' needs a larger extent)"]
 
@@ -119,9 +119,114 @@ def check(ctx, case, reqs, pend):
                 pend.append((A.small_desc(case, {"dim": a, "v": v}), [int(x) for x in cnt.reshape(-1).tolist()]))
 
 
+def emptied_history(ctx):
+    """An index with a HISTORY: re-expressed with shift_common(v); then one category loses ALL its rows through an entry-wise
+    edit (difference_update / intersection_update / set_if(key, None) / update assigning the common value / del) - those rows now
+    hold the common value v; then it is re-expressed again (shift_common(w) for every w, shift_common(), on the object itself,
+    on a copy, through column_stack).  Dense content, forced reads and the count cube must be those of an index built afresh
+    from the expected dense array: the encoding an index went through is not part of what it stands for."""
+    from catii import ccube, iindex
+    import catii.iindexes as M
+    rng = ctx.rng
+    N = rng.choice([6, 9, 12, 17])
+    nvals = rng.choice([3, 4, 5])
+    d = np.array([rng.randrange(nvals) for _ in range(N)], dtype=np.int64)
+    vals = sorted(set(d.tolist()))
+    if len(vals) < 3:
+        return
+    c0 = rng.choice(vals)
+    v = rng.choice([x for x in vals if x != c0])
+    k = rng.choice([x for x in vals if x != v])
+    how = rng.choice(["difference_update", "intersection_update", "set_if_none", "update_to_common", "del", "difference_partial"])
+    desc = {"dense": d.tolist(), "built_common": c0, "shift_to": v, "emptied": k, "how": how}
+    ctx.case(desc, nontrivial=True)
+    ctx.hit("history:" + how)
+    try:
+        ix = G.make_index(d, c0)
+        ix.shift_common(v)
+        if rng.random() < 0.5:
+            ix.common_rowids()              # a read in between
+        rows = np.asarray(ix[(k,)]).copy()
+        exp = d.copy()
+        if how == "difference_update":
+            ix.difference_update({(k,): rows})
+            exp[d == k] = v
+        elif how == "difference_partial":
+            part = rows[: max(1, len(rows) // 2)]
+            ix.difference_update({(k,): part})
+            exp[part.astype(np.int64)] = v
+        elif how == "intersection_update":
+            other = {kk: np.asarray(vv).copy() for kk, vv in dict.items(ix)}
+            other[(k,)] = np.array([], dtype=rows.dtype)
+            ix.intersection_update(other)
+            exp[d == k] = v
+        elif how == "set_if_none":
+            ix.set_if((k,), None)
+            exp[d == k] = v
+        elif how == "update_to_common":
+            ix.update({(v,): rows})         # those rows are assigned the common value
+            exp[d == k] = v
+        else:
+            del ix[(k,)]
+            exp[d == k] = v
+        got = I.dense_of(ix)
+        if not np.array_equal(got, exp):
+            ctx.oracle_fail("after shift_common(%d) and %s of category %d the dense content is %s, expected %s" % (
+                v, how, k, got.tolist(), exp.tolist()), desc, cls="C05-history")
+            return
+        fresh = G.make_index(exp, v)
+        top = int(max(vals)) + 1
+        for w in list(range(0, top + 1)) + [None]:
+            for via in ("inplace_on_copy", "column_stack", "forced_reads"):
+                ctx.evaluations += 1
+                if via == "inplace_on_copy":
+                    j = ix.copy()
+                    j.shift_common(w) if w is not None else j.shift_common()
+                    got = I.dense_of(j)
+                elif via == "column_stack":
+                    if w is None:
+                        continue
+                    j = M.column_stack([ix, fresh], new_common=w)
+                    got2 = I.dense_of(j)
+                    got = got2[:, 0]
+                    if not np.array_equal(got2[:, 1], exp):
+                        ctx.oracle_fail("column_stack(new_common=%s) of a freshly built index is wrong" % w, desc, cls="C05-history")
+                else:
+                    if w is None:
+                        continue
+                    want = np.nonzero(exp == w)[0].tolist()
+                    r = ix.get((w,), None, force=True)
+                    got_rows = [] if r is None else sorted(int(x) for x in np.asarray(r).tolist())
+                    if got_rows != want and (w in exp or got_rows):
+                        ctx.oracle_fail("after shift_common(%d) and %s of category %d, get((%d,), force=True) = %s, the rows holding "
+                                        "it are %s" % (v, how, k, w, got_rows[:10], want[:10]), dict(desc, read=w), cls="C05-history")
+                    continue
+                if not np.array_equal(got, exp):
+                    ctx.oracle_fail("after shift_common(%d), %s of category %d and re-encoding to %s (%s) the index reads %s, expected %s"
+                                    % (v, how, k, "the most frequent value" if w is None else w, via, got.tolist(), exp.tolist()),
+                                    dict(desc, reencode=w, via=via), cls="C05-history")
+                    return
+        # the cube over the index with that history equals the cube over the fresh one, whatever the common
+        for w in range(0, top + 1):
+            j = ix.copy()
+            j.shift_common(w)
+            a = ccube([j], interacting_shape=(top + 1,)).count()
+            b = ccube([fresh], interacting_shape=(top + 1,)).count()
+            ctx.evaluations += 1
+            if not np.array_equal(np.asarray(a), np.asarray(b), equal_nan=True):
+                ctx.oracle_fail("count cube over an index with the history shift_common(%d), %s of %d, shift_common(%d) = %s, over a "
+                                "freshly built index %s" % (v, how, k, w, np.asarray(a).tolist(), np.asarray(b).tolist()),
+                                dict(desc, reencode=w), cls="C05-history")
+                return
+    except Exception as e:
+        ctx.oracle_fail("history raised %s: %s" % (type(e).__name__, str(e)[:80]), desc, cls="C05-raises")
+
+
 def run(ctx):
     core.load_catii()
     reqs, pend = [], []
+    for _ in range(ctx.n(40)):
+        emptied_history(ctx)
     for it in range(ctx.n(14)):
         case = A.gen_case(ctx.rng, multi_axis=ctx.rng.random() < 0.3, k=ctx.rng.choice([1, 2, 2, 3]),
                           N=ctx.rng.choice([0, 1, 3, 5, 9]), general=(it % 4 == 3))
